@@ -256,6 +256,7 @@ type SiteDB struct {
 	atomObjs  map[string][]types.Object
 	weights   map[*FuncInfo]int
 	noInline  bool
+	inlineNew bool // with noInline: helpers that are not part of the pinned tree are still analysed in place
 	exprFuncs bool // resolvers see through expression functions (local DBs for bounds reasoning)
 	// entry contexts (interprocedural)
 	EntryMust    map[*types.Func]map[string]bool
@@ -505,7 +506,7 @@ func (r *resolver) str(e ast.Expr) string { return r.strDepth(e, 0) }
 func (r *resolver) instantiate(call *ast.CallExpr, decl *ast.FuncDecl, base *resolver) *resolver {
 	n := &resolver{l: base.l, info: base.info, defs: base.defs, uniq: base.uniq, count: base.count,
 		subst: map[types.Object]string{}, substObjs: map[types.Object][]types.Object{},
-		frame: decl.Name.Name, lo: decl.Pos(), hi: decl.End()}
+		frame: decl.Name.Name, lo: decl.Pos(), hi: decl.End(), exprFuncs: r.exprFuncs}
 	bind := func(nm *ast.Ident, arg ast.Expr) {
 		obj := base.info.Defs[nm]
 		if obj == nil || nm.Name == "_" || base.count[obj] > 0 {
@@ -895,7 +896,7 @@ func buildLocalDB(l *Loaded, funcs []*FuncInfo) *SiteDB {
 	db := &SiteDB{L: l, Calls: map[string][]*Site{}, ByFunc: map[*FuncInfo][]*Site{}, atomObjs: map[string][]types.Object{},
 		EntryMust: map[*types.Func]map[string]bool{}, EntryMay: map[*types.Func]map[string]bool{}, Exits: map[*FuncInfo][]*ExitRec{},
 		wlocks: map[*types.Func][]wlock{}, Deep: map[*FuncInfo][]*Site{}, DeepExits: map[*FuncInfo][]*ExitRec{}, Virtual: map[*FuncInfo][]*Site{},
-		Exprs: map[ast.Node]*HState{}, noInline: true, exprFuncs: true}
+		Exprs: map[ast.Node]*HState{}, noInline: true, inlineNew: true, exprFuncs: true}
 	db.Wrappers = findWrappers(l, "p9")
 	for _, w := range db.Wrappers {
 		db.wlocks[w.Fn] = db.wrapperLocks(w)
@@ -961,12 +962,12 @@ func frameResolvers[S any](l *Loaded, info *types.Info, rootRes *resolver) func(
 func inlinePolicy[S any](db *SiteDB, fi *FuncInfo) func(*ast.CallExpr, *FlowCtx[S]) *ast.FuncDecl {
 	info := fi.Pkg.TypesInfo
 	return func(call *ast.CallExpr, fc *FlowCtx[S]) *ast.FuncDecl {
-		if db.noInline {
-			return nil
-		}
 		tf := db.L.FuncOf(callee(info, call))
 		if tf == nil || tf.Decl.Body == nil || tf.Pkg != fi.Pkg || tf == fi || db.Wrappers[tf.Obj] != nil {
 			return nil
+		}
+		if db.noInline && !(db.inlineNew && !pinnedFuncs[tf.Key]) {
+			return nil // (local databases follow only helpers that did not exist in the pinned tree)
 		}
 		depth := 0
 		for c := fc; c != nil; c = c.Parent {
